@@ -74,6 +74,14 @@ Proof. exact (fun creds i c H1 H2 => eq_trans (memory_src_eq creds i) (mem_hit c
 Theorem C17_src_multi_miss : forall stack i, Forall (fun s => s i = None) stack -> Multi_get_authkey stack i = None.
 Proof. exact (fun stack i H => eq_trans (multi_src_eq stack i) (multi_miss stack i H)). Qed.
 
+Theorem C17_src_env_lookup_is_model : forall upper : bytes -> bytes,
+  upper (B "secret") = B "SECRET" -> upper (B "owner") = B "OWNER" ->
+  upper (B "pubchans") = B "PUBCHANS" -> upper (B "subchans") = B "SUBCHANS" ->
+  forall env i, Env_get_authkey upper env i = env_get upper env i.
+Proof. exact env_src_eq. Qed.
+Theorem C17_src_env_never_empty_channel : forall upper : bytes -> bytes, forall env i v F, upper v = F -> ~ In [] (Env_get_list upper env i v).
+Proof. exact (fun upper env i v F H => eq_ind_r (fun l => ~ In [] l) (env_never_empty_channel upper env i F) (env_list_src upper env i v F H)). Qed.
+
 Print Assumptions C17_mem_hit.
 Print Assumptions C17_mem_miss.
 Print Assumptions C17_mem_exact.
@@ -95,3 +103,5 @@ Print Assumptions C17_src_memory_lookup_is_model.
 Print Assumptions C17_src_multi_lookup_is_model.
 Print Assumptions C17_src_memory_hit.
 Print Assumptions C17_src_multi_miss.
+Print Assumptions C17_src_env_lookup_is_model.
+Print Assumptions C17_src_env_never_empty_channel.
